@@ -88,10 +88,12 @@ Definition c20_oracle (gn : option (list str)) (t : list row) (c : c20_case) : o
       end
   | KReq _ o _ health progress _ _ =>
       ok_if (match o with OResp | OErr => true | _ => false end && health && progress)
-  | KCancel _ _ =>
-      (* model validation only: how often the server answers a cancelled watch is etcd-compatibility (C16), not
-         a crash of the node; the case ties Handlers.watch_cancel_responses to the code (props/C20.json, notes) *)
-      None
+  | KCancel _ n =>
+      (* etcd protocol: one Canceled response per watch.  A second one makes etcd clientv3 v3.5.2 close the
+         substream's channel twice (`close of closed channel`, watch.go:605) when it arrives while the substream is
+         still registered: inside a follower that forwards watches through its etcd proxy this kills the node —
+         finding C20-F1; this case is its deterministic signature *)
+      ok_or (n <=? 1) 1
   | KPath identity => ok_if identity
   end.
 
@@ -100,12 +102,14 @@ Definition c20_oracle (gn : option (list str)) (t : list row) (c : c20_case) : o
      program's global label names with valid values;
    - request cases: every request of a modelled kind is valid (all constructors of [request]); what the probes
      saw is part of the observation, compared with the model's prediction by c20_check;
-   - KSeq / KCancel / KPath: no assumption. *)
+   - KCancel: the watch was not cancelled by the client (a client cancel is the signature of finding C20-F1);
+   - KSeq / KPath: no assumption. *)
 Definition c20_valid (gn : option (list str)) (t : list row) (c : c20_case) : Prop :=
   match c with
   | KRows g _ _ _ =>
       exists gn', gn = Some gn' /\ map fst g = gn' /\ Forall (fun v => valid_utf8 v = true) (map snd g) /\ check gn' t = true
   | KRow _ _ _ => check_program gn t = true
+  | KCancel cc _ => cc = false
   | _ => True
   end.
 
@@ -117,6 +121,7 @@ Definition c20_validb (gn : option (list str)) (t : list row) (c : c20_case) : b
       | None => false
       end
   | KRow _ _ _ => check_program gn t
+  | KCancel cc _ => negb cc
   | _ => true
   end.
 
